@@ -260,9 +260,10 @@ def _combine_case(draw, tier):
 
 
 PARTS = [
-    Part("result", _result_case, quick=6000, thorough=300000),
-    Part("sets", _sets_case, quick=2000, thorough=80000),
-    Part("combine", _combine_case, quick=1500, thorough=60000),
+    Part("result", _result_case, quick=6000, thorough=150000,
+         quick_shards=8),
+    Part("sets", _sets_case, quick=2000, thorough=40000),
+    Part("combine", _combine_case, quick=1500, thorough=30000),
 ]
 
 
